@@ -13,10 +13,11 @@ R2 == <<P(4,0), P(0,0), P(0,3), P(4,0)>>
 R3 == <<>>
 R4 == <<P(3,4), P(0,4), P(0,0), P(3,0), P(3,4)>>
 R5 == <<P(1,1), P(1,1)>>
+R6 == <<P(100,100)>>                                \* a single coordinate: no segment, measures 0, but it occupies storage
 L1 == <<P(0,0), P(3,4), P(3,0)>>
-Rings == {R1, R2, R3, R4, R5}
+Rings == {R1, R2, R3, R4, R5, R6}
 Lines == Rings \cup {L1}
-Polys == {<<>>, <<R1>>, <<R2, R3>>, <<R3>>, <<R4, R1, R2>>, <<R5, R4>>}
+Polys == {<<>>, <<R1>>, <<R2, R3>>, <<R3>>, <<R4, R1, R2>>, <<R5, R4>>, <<R6, R1>>, <<R1, R6, R3, R2>>}
 SeqsUpTo(S, n) == UNION {[1..k -> S] : k \in 0..n}
 MLayouts == IF Rich THEN {"XY", "XYZ", "XYM", "XYZM", "L5"} ELSE {"XY", "XYZM", "L5"}
 MC1 == [k : {"LS"}, v : Lines] \cup [k : {"LR"}, v : Rings]
